@@ -955,3 +955,82 @@ pub fn gen_random_rule(rng: &mut Rng, lang: &str, n: usize) -> RuleSpec {
     is_util: false,
   }
 }
+
+/// Random global utility rules g0..g(n-1) for one language (each may have local utils and may
+/// reference earlier globals at any depth), plus rules that consist of `matches: <global>`.
+pub fn gen_random_globals(rng: &mut Rng, lang: &str, world_tag: usize) -> (Vec<RuleSpec>, Vec<RuleSpec>) {
+  let tag = if lang == "TypeScript" { "ts" } else { "js" };
+  let n = rng.range(1, 3);
+  let mut names: Vec<String> = vec![];
+  let mut globals = vec![];
+  for i in 0..n {
+    let id = format!("rg{world_tag}-{i}-{tag}");
+    // local utils of this global util: may reference earlier globals
+    let mut locals: Vec<(String, String)> = vec![];
+    let mut local_names: Vec<String> = vec![];
+    for j in 0..rng.range(0, 2) {
+      let ln = format!("l{j}");
+      let mut pool = names.clone();
+      pool.extend(local_names.iter().cloned());
+      let body = match rng.below(3) {
+        0 if !pool.is_empty() => RNode::Matches(rng.pick(&pool).clone()),
+        1 => RNode::Any(vec![r_atom(rng, &pool), RNode::Kind(*rng.pick(R_KINDS))]),
+        _ => RNode::All(vec![RNode::Kind(*rng.pick(R_KINDS)), r_rel(rng, 1, &pool)]),
+      };
+      locals.push((ln.clone(), body.yaml(4)));
+      local_names.push(ln);
+    }
+    let mut pool = names.clone();
+    pool.extend(local_names.iter().cloned());
+    let body = match rng.below(3) {
+      0 => RNode::Any(vec![r_atom(rng, &pool), RNode::Kind(*rng.pick(R_KINDS)), r_atom(rng, &pool)]),
+      1 if !pool.is_empty() => RNode::Any(vec![RNode::Matches(rng.pick(&pool).clone()), RNode::Kind(*rng.pick(R_KINDS))]),
+      _ => RNode::All(vec![RNode::Kind(*rng.pick(R_KINDS)), r_rel(rng, 1, &pool)]),
+    };
+    globals.push(RuleSpec {
+      id: id.clone(),
+      language: lang.to_string(),
+      severity: None,
+      message: None,
+      note: None,
+      rule: body.yaml(2),
+      utils: locals,
+      constraints: vec![],
+      transform: vec![],
+      rewriters: vec![],
+      fix: None,
+      files: None,
+      ignores: None,
+      section_order: (0..SECTIONS.len()).collect(),
+      valid: vec![],
+      invalid: vec![],
+      is_util: true,
+    });
+    names.push(id);
+  }
+  let mut rules = vec![];
+  for (k, g) in names.iter().enumerate() {
+    if rng.chance(0.7) {
+      rules.push(RuleSpec {
+        id: format!("use-{g}"),
+        language: lang.to_string(),
+        severity: Some(rng.pick(&["hint", "info", "warning"]).to_string()),
+        message: Some(format!("matches global util #{k}")),
+        note: None,
+        rule: format!("  matches: {g}\n"),
+        utils: vec![],
+        constraints: vec![],
+        transform: vec![],
+        rewriters: vec![],
+        fix: None,
+        files: None,
+        ignores: None,
+        section_order: (0..SECTIONS.len()).collect(),
+        valid: vec![],
+        invalid: vec![],
+        is_util: false,
+      });
+    }
+  }
+  (globals, rules)
+}
